@@ -340,6 +340,7 @@ func (d *DataChannel) handleOpen(dc *datachannel.DataChannel, isRemote, isAlread
 		if err := dc.Close(); err != nil {
 			d.log.Errorf("Failed to close DataChannel that was closed during connecting state %v", err.Error())
 		}
+		d.setReadyState(DataChannelStateClosed)
 		d.onClose()
 
 		return
@@ -366,11 +367,16 @@ func (d *DataChannel) handleOpen(dc *datachannel.DataChannel, isRemote, isAlread
 	}
 
 	d.mu.Lock()
-	defer d.mu.Unlock()
-
 	if d.isGracefulClosed {
+		// Closed while it was opening: no read loop is going to see the
+		// end of the stream and finish the closing procedure.
+		d.mu.Unlock()
+		d.setReadyState(DataChannelStateClosed)
+		d.onClose()
+
 		return
 	}
+	defer d.mu.Unlock()
 
 	if !d.api.settingEngine.detach.DataChannels {
 		d.readLoopActive = make(chan struct{})
